@@ -47,6 +47,12 @@ Emit ==
                /\ \A x \in ExtraValues :
                     (fs[k].w = 1 /\ fs[k].f \notin {"attrflags"} /\ x # fs[k].cur
                      /\ x \notin {0, 255, fs[k].cur - 1, fs[k].cur + 1}) => Out(i, fs[k], "set", x)
+               /\ (fs[k].f = "capinner" =>
+                     \* inner length of a capability value: relative to what is left of the value behind it
+                     LET rem == fs[k].sub[1].to - (fs[k].o + 1) IN
+                     \A x \in {rem - 1, rem, rem + 1, 254} :
+                        (x \in 0..255 /\ x \notin {fs[k].cur, fs[k].cur - 1, fs[k].cur + 1, 0, 255}
+                         /\ x \notin ExtraValues) => Out(i, fs[k], "set", x))
                /\ \A x \in ExtraValues2 :
                     (fs[k].w = 2 /\ fs[k].f # "hdrlen" /\ x \notin {fs[k].cur, fs[k].cur - 1, fs[k].cur + 1})
                        => Out(i, fs[k], "set", x)
